@@ -9,6 +9,7 @@ if grep -rnE '\b(Admitted|admit|Axiom|Parameter|Conjecture|Admit Obligations)\b|
 fi
 /venv/bin/python tools/extract_facts.py coq/Gen/Facts.v
 /venv/bin/python tools/translate_src.py coq/Gen/Src.v
+/venv/bin/python tools/translate_merge.py coq/Gen/SrcMerge.v
 cd coq
 coq_makefile -f _CoqProject -o Makefile > /dev/null
 timeout 3000 make -k -j16 2>&1 | tail -5
